@@ -53,7 +53,7 @@ Proof. vm_compute. reflexivity. Qed.
 
 (* ------------------------------------------------------------------------------------------------
    POSITIVE part, proved without bound for the expression fragment of coq/model/TokPrint.v
-   (one-token operands: identifiers, integer, float and string literals, true, false, break, continue; prefix operators; binary infix operators; any nesting):
+   (one-token operands: identifiers, integer, float and string literals, true, false, break, continue; prefix operators; binary infix operators; calls f(a, ..); index expressions a[i]; any nesting):
    the parser, run on the token sequence body(e) - the tokens of the formatter's output for e, with
    parentheses exactly where PrefixExpression/InfixExpression.PrettyPrint put them - returns exactly
    the tree of e, with no error and no continuation request, whatever the layout flags of the tokens
@@ -62,7 +62,7 @@ Proof. vm_compute. reflexivity. Qed.
    every run (TL cases of the harness: lex(format(e)) = body(e) in both modes) and on the examples
    below inside the model. *)
 Theorem C02_fragment_roundtrip : forall conv e pts,
-  wf_ex conv e = true -> map pk pts = body e ->
+  wf_ex conv e = true -> matches pts (body e) ->
   exists f0, forall fuel, (f0 <= fuel)%nat ->
     parse_program conv fuel token_EOF pts = POk (mkPres [Some (to_node e)] [] false true).
 Proof. exact fragment_program_roundtrip. Qed.
@@ -108,7 +108,7 @@ Definition link_ok (s : string) : bool :=
         wf_ex no_numbers e &&
         forallb (fun compact =>
           match print_program compact false (pr_tree r) with
-          | Some txt => toks_eqb (removelast (map pk (front_tokens false txt))) (body e)
+          | Some txt => toks_eqb (removelast (map pk (front_tokens false txt))) (plain_toks (body e))
           | None => false
           end) [false; true]
       | None => false
@@ -119,7 +119,9 @@ Definition link_ok (s : string) : bool :=
   end.
 Example C02_fragment_link_examples :
   forallb link_ok ["a"; "-a"; "-(-a)"; "a-(b-c)"; "(a-b)-c"; "a*(b+c)"; "-(a+b)*c - d"; "!(a&&b)||c"; "a=(b=c)"; "a=b=c";
-                   "a - -b"; "a + ++b"; "~(a|b)^c"; "a<(b<c)"; "a+(b*c)+d"; "((a))"; "a:b"; "(a+b)+c"]%string = true.
+                   "a - -b"; "a + ++b"; "~(a|b)^c"; "a<(b<c)"; "a+(b*c)+d"; "((a))"; "a:b"; "(a+b)+c";
+                   "f(a)"; "f()"; "f(a, b+c)(d)"; "(a+b)(c)"; "a[b]"; "a[b][c]"; "f(a)[b+c]"; "(a+b)[c]"; "-f(a)"; "(-a)(b)";
+                   "f(g(a), h(b, c))*d"; "a[f(b)] + c[d]"]%string = true.
 Proof. vm_compute. reflexivity. Qed.
 (* and a + (b + c) is outside the fragment (the recorded finding) *)
 Example C02_fragment_excludes_plus_in_plus : link_ok "a+(b+c)" = false.
